@@ -43,6 +43,9 @@ def spell_int(rng, v):
         options.append("uesc")
     how = rng.choice(options)
     if how == "dec":
+        if rng.random() < 0.15:
+            # decimal integers written with leading zeros, like the months 01...12
+            return ("-" if v < 0 else "") + "0" * rng.randint(1, 2) + str(abs(v))
         return str(v)
     if how == "hex":
         digits = "%x" % abs(v)
